@@ -2,7 +2,8 @@
  * Explicit-state search over the abstract registry states (<= 4 live slots, counter preset or not);
  * every transition is a real API call made in a child forked from a pristine process.
  * plan "states": all abstract states x all operations, differential observation oracle.
- * plan "seq":    unmerged depth-bounded enumeration of operation sequences (cross-check of the abstraction). */
+ * plan "seq":    unmerged depth-bounded enumeration of operation sequences (cross-check of the abstraction).
+ * plan "wrap":   unmerged enumeration of create/destroy/counter-preset sequences (descriptor allocation around the wrap). */
 #include "stripe.h"
 #include <limits.h>
 #include <unistd.h>
@@ -408,12 +409,88 @@ static void plan_seq(void)
     }
 }
 
+
+/* ------------------------------------------------------------ plan "wrap": descriptor allocation around the counter wrap
+ * The abstract states of plan "states" identify histories up to descriptor renaming, which is sound only as long as the
+ * allocator looks every candidate value up in the registry. This plan does not merge anything: it enumerates every
+ * sequence over {create xor333, create null21, destroy slot 0..3, P: counter := INT_MAX-1, W: counter := INT_MAX}
+ * (P/W at most once per sequence; both values are reachable by 2^31 create/destroy pairs) up to the depth, so the wrapped
+ * counter lands below, between and on live descriptors in every arrangement of <= 4 live instances. In-process, the
+ * registry is emptied and the counter zeroed between sequences (and that reset is itself checked). */
+static const char WLET[] = "an0123PW";
+static int wrap_expect[NCFG];
+static int wrap_step(char L, int pos, int *used_pw)
+{
+    char when[32]; snprintf(when, sizeof when, "step%d:%c", pos, L);
+    switch (L) {
+    case 'a': case 'n': if (M.n >= 4) return 0; return op_create(L == 'a' ? 1 : 4, when) > 0 ? 1 : -1;
+    case '0': case '1': case '2': case '3': if (L - '0' >= M.n) return 0; op_destroy(L - '0', when); return 1;
+    case 'P': case 'W': if (*used_pw) return 0; *used_pw = 1; next_backend_desc = L == 'P' ? INT_MAX - 1 : INT_MAX; M.preset = 1; return 1;
+    }
+    return 0;
+}
+static void wrap_identify(const char *when)
+{
+    /* every live descriptor must still name the instance it was handed out for */
+    for (int i = 0; i < M.n; i++) {
+        vh_transitions(1);
+        int fs = liberasurecode_get_fragment_size(M.desc[i], 24);
+        if (fs != wrap_expect[M.cfg[i]]) vh_violation("live-instance-unusable", "%s: descriptor %d (created as %s) answers the size query with %d, expected %d", when, M.desc[i], CFG[M.cfg[i]].name, fs, wrap_expect[M.cfg[i]]);
+    }
+}
+static int wrap_run(const char *seq)
+{
+    model_reset(); next_backend_desc = 0;
+    int used = 0, ok = 1, depth = (int)strlen(seq); long v0 = vh_violations();
+    for (int i = 0; i < depth && ok > 0; i++) { ok = wrap_step(seq[i], i, &used); if (ok > 0) wrap_identify(seq); }
+    if (ok > 0) for (int i = 0; i < M.n; i++) if (M.cfg[i] == 1) use_and_compare(i, "end-of-sequence");
+    if (vh_violations() != v0) {
+        /* model and implementation may have diverged: empty the real registry directly so that the next sequence starts clean */
+        for (int g = 0; g < 64 && active_instances.slh_first; g++) liberasurecode_instance_destroy(active_instances.slh_first->idesc);
+        if (active_instances.slh_first) { fprintf(stderr, "wrap: cannot empty the registry\n"); exit(2); }
+        return 1;
+    }
+    while (M.n) op_destroy(M.n - 1, "teardown");
+    if (active_instances.slh_first) vh_violation("registry-not-empty", "registry not empty after destroying every instance");
+    if (ledger_count() != base_count || ledger_bytes() != base_bytes) vh_violation("leak", "%ld blocks / %ld bytes still allocated after destroying every instance", ledger_count() - base_count, ledger_bytes() - base_bytes);
+    return ok;
+}
+static void plan_wrap(void)
+{
+    int depth = (int)vh_opt("depth", 7);
+    compute_golden();
+    { int c[2] = { 1, 4 }; for (int j = 0; j < 2; j++) { int d = cfg_create(c[j]); wrap_expect[c[j]] = liberasurecode_get_fragment_size(d, 24); liberasurecode_instance_destroy(d); if (wrap_expect[c[j]] <= 0) { fprintf(stderr, "wrap: size query failed\n"); exit(2); } } }
+    int NL = (int)strlen(WLET);
+    for (int d = 1; d <= depth; d++) {
+        int pl = d > 3 ? 3 : 1; long n2 = 1; for (int i = 0; i < pl; i++) n2 *= NL;
+        long rest = 1; for (int i = 0; i < d - pl; i++) rest *= NL;
+        for (long gi = 0; gi < n2; gi++) {
+            char prefix[8]; long c = gi; for (int i = 0; i < pl; i++) { prefix[i] = WLET[c % NL]; c /= NL; } prefix[pl] = 0;
+            /* a prefix that is itself not executable has no executable extension: skip the whole group without claiming work */
+            { int live = 0, used = 0, bad = 0; for (int i = 0; i < pl && !bad; i++) { char L = prefix[i]; if (L == 'a' || L == 'n') { if (live >= 4) bad = 1; else live++; } else if (L == 'P' || L == 'W') { if (used) bad = 1; used = 1; } else { if (L - '0' >= live) bad = 1; else live--; } } if (bad) continue; }
+            if (!vh_group_begin("H/wrap/d%d/%s", d, prefix)) continue;
+            for (long code = 0; code < rest; code++) {
+                char seq[16]; memcpy(seq, prefix, (size_t)pl); long cc = code;
+                for (int i = pl; i < d; i++) { seq[i] = WLET[cc % NL]; cc /= NL; }
+                seq[d] = 0;
+                /* static executability (same rule as wrap_step) so that pruned sequences cost nothing and are not counted as cases */
+                { int live = 0, used = 0, bad = 0; for (int i = 0; i < d && !bad; i++) { char L = seq[i]; if (L == 'a' || L == 'n') { if (live >= 4) bad = 1; else live++; } else if (L == 'P' || L == 'W') { if (used) bad = 1; used = 1; } else { if (L - '0' >= live) bad = 1; else live--; } } if (bad) { vh_count("pruned_sequences", 1); continue; } }
+                if (!vh_case_begin("%s", seq)) continue;
+                vh_op(seq);
+                if (wrap_run(seq) > 0) { if (strpbrk(seq, "PW")) vh_nontrivial(); } else { fprintf(stderr, "wrap: static and dynamic executability disagree on %s\n", seq); exit(2); }
+            }
+            vh_group_end();
+        }
+    }
+}
+
 static void engine(void)
 {
     if (ref_init()) exit(2);
     const char *p = vh_plan();
     if (!strcmp(p, "states")) plan_states();
     else if (!strcmp(p, "seq")) plan_seq();
+    else if (!strcmp(p, "wrap")) plan_wrap();
     else { fprintf(stderr, "unknown plan %s\n", p); exit(2); }
 }
 int main(int argc, char **argv) { return vh_main(argc, argv, engine); }
